@@ -14,7 +14,7 @@ VERIF = os.path.dirname(os.path.dirname(os.path.abspath(__file__)))
 SCRATCH_ROOT = os.environ.get("VERIF_SCRATCH", "/var/tmp/mithril-verif")
 CACHE = os.path.join(VERIF, ".cache")
 KANI_TARGET = os.path.join(CACHE, "kani-target")
-EVIDENCE = os.path.join(VERIF, "evidence")
+EVIDENCE = os.environ.get("VERIF_EVIDENCE", os.path.join(VERIF, "evidence"))
 
 EXIT_OK, EXIT_VIOLATION, EXIT_UNDECIDED = 0, 1, 2
 
@@ -27,7 +27,15 @@ def log(msg):
     print(msg, flush=True)
 
 
-def run(cmd, cwd=None, timeout=None, env=None, stdin=None):
+def _limit_mem(gb):
+    def f():
+        import resource
+        lim = gb * (1 << 30)
+        resource.setrlimit(resource.RLIMIT_AS, (lim, lim))
+    return f
+
+
+def run(cmd, cwd=None, timeout=None, env=None, stdin=None, mem_gb=None):
     """Run a command, return (rc, combined output, seconds). rc None on timeout."""
     t0 = time.time()
     e = dict(os.environ)
@@ -36,7 +44,8 @@ def run(cmd, cwd=None, timeout=None, env=None, stdin=None):
         e.update(env)
     p = subprocess.Popen(cmd, cwd=cwd, env=e, stdout=subprocess.PIPE, stderr=subprocess.STDOUT,
                          stdin=subprocess.DEVNULL if stdin is None else subprocess.PIPE,
-                         start_new_session=True, text=True, errors="replace")
+                         start_new_session=True, text=True, errors="replace",
+                         preexec_fn=_limit_mem(mem_gb) if mem_gb else None)
     try:
         out, _ = p.communicate(input=stdin, timeout=timeout)
         return p.returncode, out, time.time() - t0
